@@ -263,6 +263,26 @@ func MarkCurrent(e Env, part string, replay any) {
 	os.WriteFile(e.Out+".cur", b, 0o644)
 }
 
+// NoteCurrent adds a violation key and description to the marker of the running case: if
+// the worker dies afterwards (e.g. a goroutine that the oracle already found blocked keeps
+// the bubble from terminating), the driver reports this key instead of the crash site.
+func NoteCurrent(e Env, key, what string) {
+	if e.Out == "" {
+		return
+	}
+	b, err := os.ReadFile(e.Out + ".cur")
+	if err != nil {
+		return
+	}
+	var rf ReplayFile
+	if json.Unmarshal(b, &rf) != nil || rf.Key != "" {
+		return
+	}
+	rf.Key, rf.What = key, what
+	b, _ = json.Marshal(rf)
+	os.WriteFile(e.Out+".cur", b, 0o644)
+}
+
 // ClearCurrent removes the marker (call when a part has finished normally).
 func ClearCurrent(e Env) {
 	if e.Out != "" {
